@@ -110,7 +110,7 @@ func (q *req) time() time.Time {
 	case "zero":
 		return time.Time{}
 	case "y9999":
-		t = time.Date(9999, 12, 31, 23, 59, 59, 0, time.UTC)
+		t = time.Date(9999, 12, 30, 23, 59, 59, 0, time.UTC)
 	case "y10000":
 		t = time.Date(10000, 1, 1, 0, 0, 0, 0, time.UTC)
 	case "neg":
@@ -160,7 +160,7 @@ func (g *gen) clone(r *rng.R) *gen {
 	return n
 }
 
-const nBlocks = 4
+const nBlocks = 6
 
 func genPool(r *rng.R) []types.BlockID {
 	pool := make([]types.BlockID, nBlocks)
@@ -169,6 +169,9 @@ func genPool(r *rng.R) []types.BlockID {
 	}
 	// pool[3] differs from pool[0] only in the parts header total: a near miss
 	pool[3] = types.BlockID{Hash: pool[0].Hash, PartsHeader: types.PartSetHeader{Total: pool[0].PartsHeader.Total + 1, Hash: pool[0].PartsHeader.Hash}}
+	// half-nil ids: no block hash but a parts header; a block hash without parts (negative total)
+	pool[4] = types.BlockID{PartsHeader: types.PartSetHeader{Total: pool[1].PartsHeader.Total + 7, Hash: pool[1].PartsHeader.Hash}}
+	pool[5] = types.BlockID{Hash: pool[1].Hash, PartsHeader: types.PartSetHeader{Total: -1}}
 	return pool
 }
 
@@ -235,15 +238,15 @@ func (g *gen) otherPayload(q *req) {
 			q.POLBlock = (q.POLBlock+1+r.Intn(nBlocks-1)+1)%(nBlocks+1) - 1
 		default:
 			// parts header of pool[0] and pool[3] differ in Total only
-			q.Block = (q.Block+1+r.Intn(nBlocks))%(nBlocks+1) - 1
+			q.Block = (q.Block+2+r.Intn(nBlocks))%(nBlocks+1) - 1
 		}
 		return
 	}
 	// votes: another block id (includes nil <-> block and the near-miss pair 0/3)
-	q.Block = (q.Block+1+r.Intn(nBlocks))%(nBlocks+1) - 1
+	q.Block = (q.Block+2+r.Intn(nBlocks))%(nBlocks+1) - 1
 }
 
-var chains = []string{"chain-A", "chain-B"}
+var chains = []string{"chain-A", "chain-B", "", "ch\"ain\u00e9\\ \u2028"}
 
 var bigHeights = []uint64{1 << 32, 1<<53 + 1, 1 << 62, 1<<63 - 1, 1 << 63, 1<<64 - 2, 1<<64 - 1}
 
@@ -259,7 +262,8 @@ func (g *gen) next() *req {
 		g.freshTS(q)
 		return g.api(q)
 	}
-	l := *g.last
+	prev := *g.last // the last accepted request, untouched
+	l := prev
 	q := &l
 	x := r.Intn(100)
 	switch {
@@ -288,7 +292,7 @@ func (g *gen) next() *req {
 			q.R++
 		} else {
 			q.H += uint64(r.Range(1, 3))
-			if q.H < l.H { // wrapped
+			if q.H < prev.H { // wrapped
 				q.H = 1<<64 - 1
 			}
 			q.R = 0
@@ -322,9 +326,8 @@ func (g *gen) next() *req {
 		}
 	case x < 73:
 		q.Intent = "same-hrs-other-chain"
-		q.Chain = chains[1]
-		if l.Chain == chains[1] {
-			q.Chain = chains[0]
+		for q.Chain == prev.Chain {
+			q.Chain = chains[r.Intn(len(chains))]
 		}
 	case x < 76:
 		q.Intent = "same-hrs-other-unsigned-field"
@@ -353,10 +356,10 @@ func (g *gen) next() *req {
 			q.Intent = "regress-round"
 		} else {
 			q.H -= uint64(r.Range(1, 2))
-			if q.H > l.H {
+			if q.H > prev.H {
 				q.H = 0
 			}
-			q.R = r.Range(0, l.R+3)
+			q.R = r.Range(0, prev.R+3)
 		}
 		g.setStep(q, int8(r.Range(1, 3)))
 		g.randPayload(q)
@@ -511,6 +514,7 @@ type timeline struct {
 	max   int // index into rel of the highest release, -1 if none
 	hist  []event
 	dead  bool
+	loads int
 	stats *caseStats
 }
 
@@ -581,7 +585,12 @@ func (t *timeline) readDisk() (*types.FilePV, *diskRecord, bool) {
 		t.report("durability/key-file-unreadable", fmt.Sprintf("%d bytes on disk do not decode: %s", len(b), perr), map[string]interface{}{"file": string(b)})
 		return nil, nil, false
 	}
-	pv := types.LoadFilePV(t.path)
+	var pv *types.FilePV
+	if t.loads++; t.loads%2 == 0 {
+		pv = types.LoadOrGenFilePV(t.path) // what node.go calls at start
+	} else {
+		pv = types.LoadFilePV(t.path)
+	}
 	d := &diskRecord{At: hrs{pv.LastHeight, int64(pv.LastRound), pv.LastStep}, SB: []byte(pv.LastSignBytes)}
 	if pv.LastSignature != nil {
 		d.Sig = sigBytes(pv.LastSignature)
@@ -719,6 +728,7 @@ func (t *timeline) sign(q *req) outcome {
 	c := t.c
 	before, _ := ioutil.ReadFile(t.path)
 	ino0, _ := fileID(t.path)
+	stray0 := len(strayFiles(t.dir))
 	out, _ := t.call(q)
 	after, _ := ioutil.ReadFile(t.path)
 	ino1, _ := fileID(t.path)
@@ -730,6 +740,7 @@ func (t *timeline) sign(q *req) outcome {
 	case out.panicked != "":
 		ev.Res = "panic: " + out.panicked
 		c.Count("sign_panics", 1)
+		c.Count("sign_panic:"+panicClass(out.panicked), 1)
 	case !out.ok:
 		ev.Res = "refused: " + out.refused
 		c.Count("refused", 1)
@@ -750,9 +761,9 @@ func (t *timeline) sign(q *req) outcome {
 				return out
 			}
 		}
-		if left := strayFiles(t.dir); len(left) > 0 {
-			c.Count("temp_files_left_behind", int64(len(left)))
-		}
+	}
+	if left := len(strayFiles(t.dir)); left > stray0 {
+		c.Count("temp_files_left_behind", int64(left-stray0))
 	}
 	added := t.judge(q, out)
 	if t.dead {
@@ -893,6 +904,18 @@ func (t *timeline) checkDisk(q *req, out outcome, added bool) {
 			t.report("durability/record-differs-from-newest-release", fmt.Sprintf("key file holds %s, released was %s", d.SB, hi.SB), nil)
 		}
 	}
+}
+
+func panicClass(msg string) string {
+	switch {
+	case strings.Contains(msg, "Unknown vote type"):
+		return "unknown-vote-type"
+	case strings.Contains(msg, "parsing time"):
+		return "stored-timestamp-unparseable"
+	case strings.Contains(msg, "no such file"):
+		return "save-failed"
+	}
+	return "other"
 }
 
 func mustTS(sb []byte) string {
@@ -1094,7 +1117,7 @@ func run(c *core.Ctx) {
 	}
 	r := c.Rng
 	nosave := c.Index%8 == 7
-	straceCase := !nosave && c.Index%16 == 3
+	straceCase := !nosave && c.Index%32 == 3
 	pool := genPool(r)
 	dir := filepath.Join(c.Scratch, "main")
 	os.MkdirAll(dir, 0755)
@@ -1140,7 +1163,8 @@ func run(c *core.Ctx) {
 		enumerate := !nosave && cr.Chance(perReq)
 		oldState, _ := ioutil.ReadFile(path)
 		relBefore := len(t.rel)
-		if i == straceAt {
+		if straceAt >= 0 && i >= straceAt && (strings.HasPrefix(q.Intent, "advance") || q.Intent == "first" || q.Intent == "jump") {
+			straceAt = -1
 			straceLane(t, q, oldState, cr.Split(), fmt.Sprintf("r%d", i))
 			if t.dead {
 				break
@@ -1164,10 +1188,18 @@ func run(c *core.Ctx) {
 		c.Nontrivial(fmt.Sprintf("%x", h[:8]))
 	}
 	if c.Index%100 == 0 {
-		s := t.hist
-		if len(s) > 10 {
-			s = s[:10]
+		var s []string
+		for i, e := range t.hist {
+			if i >= 14 {
+				break
+			}
+			if e.Req == nil {
+				s = append(s, e.Op)
+				continue
+			}
+			q := e.Req
+			s = append(s, fmt.Sprintf("%s %s %s %d/%d/%d block=%d pol=%d/%d ts=%s -> %s", q.Intent, q.API, q.Chain, q.H, q.R, q.step(), q.Block, q.POLRound, q.POLBlock, q.time().Format(time.RFC3339Nano), e.Res))
 		}
-		c.Sample(map[string]interface{}{"requests": n, "nosave_subrun": nosave, "history_prefix": s, "releases": len(t.rel)})
+		c.Sample(map[string]interface{}{"requests": n, "nosave_subrun": nosave, "history_prefix": s, "releases": len(t.rel), "crash_points": stats.crashPoints})
 	}
 }
